@@ -1088,6 +1088,85 @@ func runC08ExactReader(c *core.Ctx) {
 	c.Check(eofOnly, "R7", "exact-reader/maps-only-eof", p.InstrPos(mapAt), "only io.EOF of the source is rewritten to io.ErrUnexpectedEOF", "the reader rewrites errors other than io.EOF to io.ErrUnexpectedEOF: a transport failure in the middle of a frame body reaches the handlers as a truncated-frame error (the forced close for connection errors is skipped)")
 	c.Check(remCond && okOrder, "R7", "exact-reader/maps-early-eof", p.InstrPos(mapAt), "EOF is mapped to io.ErrUnexpectedEOF when bytes are still owed after this read was counted", "the early-EOF test looks at the remaining count before this read was subtracted (or not at all): a complete last frame whose bytes arrive together with io.EOF is rejected, or a truncated one accepted")
 	c.Check(!condOnN, "R7", "exact-reader/eof-mapping-unconditional", p.InstrPos(mapAt), "the mapping does not depend on how many bytes came with the EOF", "source EOF is mapped to io.ErrUnexpectedEOF only for some byte counts of the final read: a reader that returns its last bytes together with io.EOF passes a truncated body off as complete")
+
+	// (iii) Read is the checked way to the source. Any other method of the type that reads the source (a WriteTo /
+	// Discard fast path that io.Copy, io.MultiReader and ReadAll pick up) has to report truncation itself: it yields
+	// io.ErrUnexpectedEOF under a test "still owed > 0" on the count that remains after its own reads.
+	var srcF *types.Var
+	for _, f := range fieldsOfNamed(rt) {
+		if types.IsInterface(f.Type()) {
+			srcF = f
+		}
+	}
+	ms := types.NewMethodSet(types.NewPointer(rt))
+	for i := 0; i < ms.Len(); i++ {
+		mo, ok := ms.At(i).Obj().(*types.Func)
+		if !ok || mo.Name() == "Read" {
+			continue
+		}
+		m := p.FuncOf(mo)
+		if m == nil || m.Blocks == nil || !p.InRepo(m) || srcF == nil {
+			continue
+		}
+		touches := false
+		core.AllInstrs(m, func(in ssa.Instruction) {
+			if fa, ok := in.(*ssa.FieldAddr); ok {
+				if fv, _ := core.FieldOf(fa); fv == srcF {
+					touches = true
+				}
+			}
+		})
+		if !touches {
+			continue
+		}
+		c.Instance("R7")
+		stores := core.StoresToField(m, remF)
+		okPath := false
+		for _, ifi := range core.Ifs(m) {
+			cd := core.CondOf(ifi)
+			x, y, op := cd.X, cd.Y, cd.Op
+			if x == nil || y == nil {
+				continue
+			}
+			if k, isC := core.ConstInt(x); isC && k == 0 {
+				x, y = y, x
+				switch op {
+				case token.LSS:
+					op = token.GTR
+				case token.GTR:
+					op = token.LSS
+				}
+			}
+			if k, isC := core.ConstInt(y); !isC || k != 0 || (op != token.GTR && op != token.NEQ) {
+				continue
+			}
+			// x is the remaining count after this method's update
+			after := false
+			xs := stripConv(x)
+			for _, st := range stores {
+				if stripConv(st.Val) == xs {
+					after = true
+				}
+				if ld, ok := xs.(*ssa.UnOp); ok && ld.Op == token.MUL {
+					if fv, _ := core.FieldOf(ld); fv == remF && core.Dominates(st, ld) {
+						after = true
+					}
+				}
+			}
+			if !after {
+				continue
+			}
+			// the owed side yields io.ErrUnexpectedEOF
+			core.AllInstrs(m, func(in ssa.Instruction) {
+				if ld, ok := in.(*ssa.UnOp); ok && ld.Op == token.MUL {
+					if g, ok := ld.X.(*ssa.Global); ok && g.Name() == "ErrUnexpectedEOF" && core.EdgeDominates(ifi.Block(), cd.True, ld.Block()) {
+						okPath = true
+					}
+				}
+			})
+		}
+		c.Check(okPath, "R7", "exact-reader/other-consumer/"+mo.Name(), p.Pos(m.Pos()), "reports io.ErrUnexpectedEOF when bytes are still owed after its own reads", "the exact-length reader has a second way to its source ("+mo.Name()+") that does not report truncation by testing the count still owed after its own reads: consumers that prefer it (io.Copy, io.MultiReader.WriteTo, ReadAll) receive a shortened frame as complete")
+	}
 }
 
 // flipSites: v is (or is the result of a repository helper that returns) a conversion of a wire-derived
